@@ -2,6 +2,8 @@ package main
 
 import (
 	"context"
+	"crypto/tls"
+	"net"
 	"fmt"
 	"sync/atomic"
 	"time"
@@ -9,6 +11,7 @@ import (
 	kmip "github.com/smira/go-kmip"
 
 	"kvharness/internal/rec"
+	"kvharness/internal/tlsm"
 )
 
 // c09Reconfigure: one long-lived connection while the request-authentication callback of the running Server is replaced
@@ -218,6 +221,79 @@ func c09PerOperation(r *Result) {
 					<-ret
 					r.Stats["per-operation-gate-scenarios"]++
 				}
+			}
+		}
+	}
+}
+
+// c09ResumedSession: the session-authentication callback decides for EVERY connection - also for one whose TLS handshake
+// resumed an earlier session (a client with a session cache reconnecting). A first connection is accepted and served (the
+// session ticket arrives with the response); the callback then changes its mind (the client was revoked); the same client
+// reconnects, resuming: the callback must be asked again, its refusal must close the connection without a response, and no
+// handler may run. With a callback that accepts again, the handler sees the value returned for THIS connection.
+func c09ResumedSession(r *Result) {
+	ca := tlsm.NewCA("c09-resume-ca")
+	scfg := &tls.Config{Certificates: []tls.Certificate{tlsm.Leaf(ca, tlsm.LeafOpts{Host: "127.0.0.1"})}, ClientCAs: ca.Pool}
+	kmip.DefaultServerTLSConfig(scfg)
+	for _, second := range []string{"rejects", "accepts with another value"} {
+		for _, maxVer := range []uint16{tls.VersionTLS12, tls.VersionTLS13} {
+			key := fmt.Sprintf("TLS (max version %x) client with a session cache connects twice; SessionAuthHandler accepts the first connection and %s the second (resumed) one", maxVer, second)
+			crumb("C09 " + key)
+			r.eval(key, true)
+			ln, err := tls.Listen("tcp", "127.0.0.1:0", scfg)
+			if err != nil {
+				r.find(Finding{Kind: "disagreement", What: "cannot listen", Input: err.Error()})
+				return
+			}
+			var conns, calls int32
+			var seen atomic.Value
+			s := &kmip.Server{}
+			s.SessionAuthHandler = func(c net.Conn) (interface{}, error) {
+				n := atomic.AddInt32(&conns, 1)
+				if n >= 2 && second == "rejects" {
+					return nil, fmt.Errorf("client certificate revoked")
+				}
+				return fmt.Sprintf("connection-%d", n), nil
+			}
+			s.Handle(kmip.OPERATION_ACTIVATE, func(ctx *kmip.RequestContext, item *kmip.RequestBatchItem) (interface{}, error) {
+				atomic.AddInt32(&calls, 1)
+				seen.Store(fmt.Sprint(ctx.SessionAuth))
+				return kmip.ActivateResponse{UniqueIdentifier: "x"}, nil
+			})
+			init := make(chan struct{})
+			ret := make(chan error, 1)
+			go func() { ret <- s.Serve(ln, init) }()
+			<-init
+			ccfg := &tls.Config{RootCAs: ca.Pool, Certificates: []tls.Certificate{tlsm.Leaf(ca, tlsm.LeafOpts{Host: "client", Client: true})},
+				ClientSessionCache: tls.NewLRUClientSessionCache(4), MaxVersion: maxVer}
+			kmip.DefaultClientTLSConfig(ccfg)
+			obs := ""
+			resumed := false
+			for i := 1; i <= 2; i++ {
+				cl := &kmip.Client{Endpoint: ln.Addr().String(), TLSConfig: ccfg, ReadTimeout: 3 * time.Second, WriteTimeout: 3 * time.Second}
+				if err := cl.Connect(); err != nil {
+					obs += fmt.Sprintf("conn%d: connect failed; ", i)
+					continue
+				}
+				_, err := cl.Send(kmip.OPERATION_ACTIVATE, kmip.ActivateRequest{UniqueIdentifier: "a"})
+				sa, _ := seen.Load().(string)
+				obs += fmt.Sprintf("conn%d: answered=%v handler-calls=%d session-auth-seen=%s; ", i, err == nil, atomic.LoadInt32(&calls), sa)
+				cl.Close()
+				time.Sleep(20 * time.Millisecond)
+			}
+			_ = resumed
+			ctx, cancel := context.WithTimeout(context.Background(), 5*time.Second)
+			_ = s.Shutdown(ctx)
+			cancel()
+			<-ret
+			want := "conn1: answered=true handler-calls=1 session-auth-seen=connection-1; conn2: answered=false handler-calls=1 session-auth-seen=connection-1; "
+			if second != "rejects" {
+				want = "conn1: answered=true handler-calls=1 session-auth-seen=connection-1; conn2: answered=true handler-calls=2 session-auth-seen=connection-2; "
+			}
+			r.Stats["resumed-session-scenarios"]++
+			if obs != want {
+				r.find(Finding{Kind: "violation", What: "the session-authentication callback did not decide for a connection that resumed an earlier TLS session (a handler ran / a response was sent although it refused, or the handler saw another connection's session-auth value)",
+					Input: key, Expect: want, Actual: obs})
 			}
 		}
 	}
